@@ -660,3 +660,87 @@ pub fn rolling(max_l: usize) -> Vec<Program> {
     }
     out
 }
+
+
+fn scripts(alphabet: &[Op], max_len: usize) -> Vec<Vec<Op>> {
+    let mut out: Vec<Vec<Op>> = vec![vec![]];
+    let mut frontier: Vec<Vec<Op>> = vec![vec![]];
+    for _ in 0..max_len {
+        let mut next = vec![];
+        for s in &frontier {
+            for a in alphabet {
+                let mut t = s.clone();
+                t.push(a.clone());
+                next.push(t);
+            }
+        }
+        out.extend(next.iter().cloned());
+        frontier = next;
+    }
+    out
+}
+
+/// Bounded-exhaustive consumer histories around one adaptor: every script of at most `depth`
+/// pulls (from either end) before the adaptor is applied, times every script of at most `depth`
+/// pulls afterwards, for every adaptor at its critical parameter values and every length up to
+/// `max_l`. Complete within these bounds.
+pub fn c09_histories(max_l: usize, depth: usize) -> Vec<Program> {
+    let mut out = vec![];
+    let pre = scripts(&[Op::Next, Op::NextBack, Op::Nth(1), Op::NthBack(1)], depth);
+    let post_fw = scripts(&[Op::Next, Op::Nth(0), Op::Nth(1), Op::Nth(2)], depth);
+    let post_de = scripts(&[Op::Next, Op::NextBack, Op::Nth(1), Op::NthBack(0)], depth);
+    for ty in [Ty::F64, Ty::OptF64] {
+        for len in 0..=max_l {
+            let data = pattern(ty, len, if len > 2 { 1 } else { 0 });
+            let l = len as i32;
+            let mut stages: Vec<Stage> = vec![
+                Stage::VAbs,
+                Stage::MapId,
+                Stage::Rev,
+                Stage::Scan,
+                Stage::ToTrust,
+                Stage::StepBy { k: 2 },
+                Stage::FFill { fill: None },
+                Stage::BFill { fill: Some(fill_for(ty)) },
+                Stage::Fill { v: fill_for(ty) },
+                Stage::VClip { lo: fill_for(ty), hi: Val::Null },
+            ];
+            let mut lags = vec![-l - 1, -l, -1, 0, 1, l, l + 1];
+            lags.sort();
+            lags.dedup();
+            for n in lags {
+                stages.push(Stage::Shift { n, v: fill_for(ty) });
+                stages.push(Stage::VShift { n, fill: None });
+            }
+            let mut ks = vec![0, len.saturating_sub(1), len, len + 1];
+            ks.sort();
+            ks.dedup();
+            for k in ks {
+                stages.push(Stage::Take { k });
+                stages.push(Stage::Remat { backend: Backend::Vec, op: ViewOp::VPart { k, sort: false, rev: false } });
+                stages.push(Stage::Remat { backend: Backend::Vec, op: ViewOp::VArgPart { k, sort: true, rev: false } });
+            }
+            if ty == Ty::F64 {
+                for n in [-l - 1, -1, 1, l + 1] {
+                    stages.push(Stage::Remat { backend: Backend::Vec, op: ViewOp::VDiff { n, fill: None } });
+                    stages.push(Stage::Remat { backend: Backend::Vec, op: ViewOp::VPct { n } });
+                }
+            }
+            stages.push(Stage::Remat { backend: Backend::Deque { head: 1 }, op: ViewOp::RollIter { w: len.max(1) } });
+            for stg in &stages {
+                let keeps_de = matches!(stg, Stage::MapId | Stage::Rev | Stage::ToTrust);
+                let posts = if keeps_de { &post_de } else { &post_fw };
+                for a in &pre {
+                    for b in posts {
+                        let mut ops = a.clone();
+                        ops.push(Op::Wrap(stg.clone()));
+                        ops.extend(b.iter().cloned());
+                        let term = if (a.len() + b.len()) % 2 == 0 { Terminal::Drain } else { Terminal::HandOff(Sink::TrustedToVec) };
+                        out.push(pipe(ty, data.clone(), Backend::Vec, ViewOp::Titer, ops, term));
+                    }
+                }
+            }
+        }
+    }
+    out
+}
